@@ -208,6 +208,42 @@ pub fn run(args: &Args) {
     let mut w = CaseWriter::new(&args.out, "c12", HEADER12, 150);
     let mut evaluations = 0usize;
 
+    // ---- 0: every operator on every pair of operand types, as variables and as literals: the
+    // verdict is the language rule (strings concatenate and compare with strings; numbers take every
+    // operator; nothing mixes), and an accepted statement never ends with Type mismatch
+    {
+        let ops = ["<", "<=", "=", ">=", ">", "<>", "+", "-", "*", "/", "MOD", "AND", "OR"];
+        let vars = [("I%", "3"), ("L&", "100000"), ("S!", "2.5"), ("D#", "0.25#"), ("T$", "\"ab\"")];
+        for (li, (lv, ll)) in vars.iter().enumerate() {
+            for (ri, (rv, rl)) in vars.iter().enumerate() {
+                for op in ops.iter() {
+                    let l_str = li == 4;
+                    let r_str = ri == 4;
+                    let expect_accept = if l_str && r_str { ["<", "<=", "=", ">=", ">", "<>", "+"].contains(op) } else { !l_str && !r_str };
+                    for form in 0..2 {
+                        let (a, b) = if form == 0 { (lv.to_string(), rv.to_string()) } else { (ll.to_string(), rl.to_string()) };
+                        let src = format!("I% = 3\nL& = 100000\nS! = 2.5\nD# = 0.25\nT$ = \"ab\"\nPRINT {} {} {}\n", a, op, b);
+                        evaluations += 1;
+                        let o = run_program(&src, &RunOpts::default());
+                        let accepted = matches!(o, Outcome::Ran(_));
+                        sum.count(if expect_accept { "operator_pairs_accepted_by_rule" } else { "operator_pairs_rejected_by_rule" });
+                        if accepted != expect_accept {
+                            sum.violation(ImplViolation { key: format!("operator-verdict:{}", op), input: src.replace('\n', " | "), expected: if expect_accept { "accepted".into() } else { "Type mismatch from the checker".into() }, observed: format!("{:?}", verdict(&o)) });
+                        } else if let Outcome::Ran(r) = &o {
+                            if let End::Err(13, ..) = r.end {
+                                sum.violation(ImplViolation { key: format!("type-mismatch-at-run-time:{}", op), input: src.replace('\n', " | "), expected: "no Type mismatch in an accepted program".into(), observed: format!("{:?}", r.end) });
+                            }
+                        } else if let Outcome::LintError { msg, .. } = &o {
+                            if family(msg) != "type" {
+                                sum.violation(ImplViolation { key: format!("operator-verdict:{}", op), input: src.replace('\n', " | "), expected: "an error of the type family".into(), observed: msg.clone() });
+                            }
+                        }
+                    }
+                }
+            }
+        }
+    }
+
     // ---- A/B: core programs, verdict against the Coq typing model
     let n_core = if args.thorough() { 1200 } else { 350 };
     for k in 0..n_core {
